@@ -189,7 +189,7 @@ Proof.
   apply field_panic in H as (ts & a7 & ? & H); [|apply pair_np].
   apply field_panic in H as (life & a8 & sl & H); [|apply p_uint_np].
   cbv zeta in H.
-  destruct (1 <? match size_hint a8 with Some n => n | None => 0 end).
+  match type of H with (if ?c then _ else _) = _ => destruct c end.
   - apply field_panic in H as (off & a9 & ? & H); [|apply p_uint_np].
     apply field_panic in H as (len & a10 & ? & H); [|apply p_uint_np].
     apply crc_field_panic in H as (c & ? & ? & H). discriminate.
